@@ -37,6 +37,20 @@ keys 0 and 1) up to 12.  The statistic is computed in exact rational arithmetic
 on the *binary value* of the decay factor, so that (1 - eta) carries no error of
 its own when eta is close to 1.
 
+Round-3b widening (long epochs: hundreds to tens of thousands of samples in one
+epoch, where a sample moves a rate by only minority/(N(N+1))): the rates stay
+exact rationals of the integer counts, so "the rate changed" is decided exactly
+at any N.  The statistic stays an exact rational while its denominator is below
+2^R_EXACT_BITS (every history of the short families); beyond that it is rounded
+after each update to the grid 2^-R_GRID_BITS.  The rounding error is damped by
+the decay factor like the statistic itself, so it stays below
+2^-R_GRID_BITS / (1 - eta) -- hundreds of orders of magnitude under the 1e-9
+margin at which a comparison is declared numerically undecidable.  Simulated
+values for N > FAST_SIM_N are weighted sums taken with numpy.dot (error
+~ 1e-16 * log N relative) instead of math.fsum.  ``compact = True`` makes
+``step`` return only length and tail of all_drift_states (the caller compares
+the complete lists itself at chosen moments).
+
 The caller owns numpy's global RNG: it must seed it immediately before
 ``step`` with the same value it used before the real ``update`` (§2.3).
 Every bound comparison goes through the Decider ``D``.
@@ -48,6 +62,10 @@ import numpy as np
 
 RATES = ("tpr", "tnr", "ppv", "npv")
 HALF = Fraction(1, 2)
+R_EXACT_BITS = 2048  # statistic denominators up to here are kept exactly (38 updates of a 53-bit decay factor)
+R_GRID_BITS = 1024  # afterwards: rounded to multiples of 2^-1024 after every update
+FAST_SIM_N = 64  # simulated statistics for larger N use numpy.dot instead of math.fsum
+TAIL = 4  # compact observations: how many trailing entries of all_drift_states are returned
 
 
 def rate_of(C, rate):
@@ -86,9 +104,15 @@ def simulate_bounds(eta, p, N, num_mc, warning_level, detect_level):
     """Draw protocol + percentiles.  Consumes numpy's global RNG."""
     w = [eta ** (N - i) for i in range(1, N + 1)]
     vals = []
-    for _ in range(num_mc):
-        b = np.random.binomial(1, p, size=N)
-        vals.append((1 - eta) * math.fsum(w[i] for i in range(N) if b[i]))
+    if N > FAST_SIM_N:
+        wa = np.array(w, dtype=np.float64)
+        for _ in range(num_mc):
+            b = np.random.binomial(1, p, size=N)
+            vals.append((1 - eta) * float(np.dot(wa, b)))
+    else:
+        for _ in range(num_mc):
+            b = np.random.binomial(1, p, size=N)
+            vals.append((1 - eta) * math.fsum(w[i] for i in range(N) if b[i]))
     return (
         float(np.percentile(vals, warning_level * 100)),
         float(np.percentile(vals, 100 - warning_level * 100)),
@@ -164,7 +188,25 @@ class LFRModel:
         self.all_states = []
         self.state = None
         self.diag = {}
+        self.compact = False
         self._epoch()
+
+    def __deepcopy__(self, memo):
+        """Snapshot without walking the (immutable) cache entries and Fractions one by one."""
+        new = object.__new__(type(self))
+        new.__dict__.update(self.__dict__)
+        new.cache = dict(self.cache)  # values are tuples of floats / ints / Fractions
+        new.all_states = list(self.all_states)
+        new.C = [list(self.C[0]), list(self.C[1])]
+        new.R = dict(self.R)
+        new.recs = list(self.recs)
+        new.diag = dict(self.diag)
+        return new
+
+    def next_is_tested(self):
+        """Will the next sample be tested against bounds (does the next step take decisions)?"""
+        since = 1 if self.state == "drift" else self.since + 1
+        return since > self.burn_in and since % self.subsample == 0
 
     def _epoch(self):
         self.epochs += 1
@@ -231,7 +273,11 @@ class LFRModel:
         detail = {}
         for r in self.tracked:
             if new[r][0] != old[r][0]:
-                self.R[r] = self.eta_q * self.R[r] + (1 - self.eta_q) * hit
+                R = self.eta_q * self.R[r] + (1 - self.eta_q) * hit
+                if R.denominator.bit_length() > R_EXACT_BITS:
+                    # long epoch: keep the numbers bounded (module docstring, round-3b)
+                    R = Fraction(round(R * (1 << R_GRID_BITS)), 1 << R_GRID_BITS)
+                self.R[r] = R
                 diag["stat_updates"] += 1
             else:
                 diag["stat_kept"] += 1
@@ -265,11 +311,16 @@ class LFRModel:
         diag["near"] = len(D.near)
         diag["flipped"] = len(D.flips)
         self.diag = diag
-        return {
+        out = {
             "state": self.state,
             "recs": list(self.recs),
             "total": self.total,
             "since": self.since,
-            "all_states": list(self.all_states),
             "_detail": detail,
         }
+        if self.compact:
+            out["all_len"] = len(self.all_states)
+            out["all_tail"] = self.all_states[-TAIL:]
+        else:
+            out["all_states"] = list(self.all_states)
+        return out
